@@ -508,3 +508,45 @@ def agg_helper(inp, W):
     data = di.DataFrame(g=inp["g"], x=inp["x"])
     out = data.group_by("g").aggregate(y=f("x", *pos, **kw))
     return {"out": out}
+
+# ---------------------------------------------------------------------------- C08 Numba on/off
+
+def aggregate_once(inp, di):
+    name = inp["helper"]
+    f = getattr(di, name)
+    kw = _helper_kwargs(inp)
+    pos = []
+    if name == "nth": pos = [inp["index"]]
+    if name == "quantile": pos = [inp["q"]]
+    data = di.DataFrame(g=inp["g"], x=inp["x"])
+    return data.group_by("g").aggregate(y=f("x", *pos, **kw))
+
+class Passthrough:
+    """already encoded JSON (the real codec returns it verbatim)"""
+    def __init__(self, j): self.j = j
+
+@op
+def agg_numba(inp, W):
+    """inp["steps"]: list of aggregation jobs run in order, first with USE_NUMBA on, then off"""
+    if W.sym:
+        from . import numba_model
+        return numba_model.run(inp, W)
+    import json, os, shutil, subprocess, sys, tempfile
+    from . import realcodec_lazy
+    shared = os.environ.get("VF_NUMBA_SHARED_CACHE") if not inp.get("fresh_cache") else None
+    cache = shared or tempfile.mkdtemp(prefix="vf_numba_cache_")
+    try:
+        env = dict(os.environ)
+        env["NUMBA_CACHE_DIR"] = cache
+        env.pop("DATAITER_USE_NUMBA", None)
+        job = {"steps": [realcodec_lazy.encode(st) for st in inp["steps"]]}
+        p = subprocess.run([sys.executable, "-m", "vf.numba_job"], input=json.dumps(job), capture_output=True, text=True,
+                           cwd=os.path.dirname(os.path.dirname(os.path.abspath(__file__))), env=env, timeout=600)
+        if p.returncode != 0:
+            raise RuntimeError("numba job failed: " + p.stderr[-800:])
+        r = json.loads(p.stdout.strip().splitlines()[-1])
+        if "error" in r: raise RuntimeError(r["error"])
+        return Passthrough({"d": [["on", {"l": r["on"]}], ["off", {"l": r["off"]}]]})
+    finally:
+        if not shared:
+            shutil.rmtree(cache, ignore_errors=True)
